@@ -417,17 +417,41 @@ Qed.
 Lemma concat_map_single {A B} (g : A -> B) l : concat (map (fun j => [g j]) l) = map g l.
 Proof. induction l; simpl; congruence. Qed.
 
+Lemma iter_shift {A} (f : A -> A) n : forall x, Nat.iter n f (f x) = f (Nat.iter n f x).
+Proof. induction n as [|n IH]; intros x; simpl; [reflexivity|]. rewrite IH. reflexivity. Qed.
+
+(* one function applied along any list of indices: as often as the index occurs *)
+Lemma apply_muts_iter f js k : forall st,
+  apply_muts (map (fun j => (j, f)) js) k st = Nat.iter (count_nat k js) f st.
+Proof.
+  unfold apply_muts, count_nat. induction js as [|j js IH]; intros st; simpl; [reflexivity|].
+  rewrite IH. rewrite (Nat.eqb_sym k j). destruct (j =? k); simpl; [|reflexivity].
+  apply iter_shift.
+Qed.
+
 (* the mutations of an accepted jump, in commit order *)
+Definition kid_muts (s : state) (j : nat) : muts := map (fun c => (c, reset_for_retry)) (children s j).
+
 Definition jump_muts (s : state) (src : stage) (i tg : nat) (jctx : kv) : muts :=
   let nj := (s_jump_count src + 1)%Z in
-  map (fun j => (j, reset_for_retry)) (jump_resets s i tg) ++
+  map (fun j => (j, reset_for_retry)) (jump_reset_list s i tg) ++
   map (fun j => (j, to_skipped)) (jump_skipped s i tg) ++
-  (if i =? tg then [] else [(i, jump_src_fn (jump_backward s i tg) nj)]) ++
-  [(tg, jump_tgt_fn nj jctx)].
+  (if i =? tg then []
+   else if jump_backward s i tg then (i, jump_src_fn true nj) :: kid_muts s i
+   else [(i, jump_src_fn false nj)]) ++
+  (tg, jump_tgt_fn nj jctx) :: kid_muts s tg.
 
 Lemma filter_and {A} (f g : A -> bool) l : filter (fun x => f x && g x) l = filter g (filter f l).
 Proof.
   induction l as [|a l IH]; simpl; [reflexivity|]. destruct (f a); simpl; [destruct (g a)|]; rewrite IH; reflexivity.
+Qed.
+
+Lemma concat_reset_with_kids s f js :
+  concat (flat_map (fun j => c_mutate j f :: map (fun c => c_mutate c f) (children s j)) js) =
+  map (fun j => OMut j f) (flat_map (reset_with_kids s) js).
+Proof.
+  induction js as [|j js IH]; simpl; [reflexivity|].
+  rewrite concat_app, map_app, IH. f_equal. unfold c_mutate. rewrite (concat_map_single (fun c => OMut c f)). reflexivity.
 Qed.
 
 Lemma handle_jump_accepted s id i tg jctx src tgt :
@@ -436,15 +460,20 @@ Lemma handle_jump_accepted s id i tg jctx src tgt :
   handle_jump s id i tg jctx = ok [mut_ops (jump_muts s src i tg jctx) ++ [OMark id; OPush (MStartStage tg 0)]].
 Proof.
   intros Hs Hc Ht Hx. unfold handle_jump. rewrite Hs, Hc, Ht, Hx. cbn zeta.
-  f_equal. f_equal. unfold txn, jump_muts, mut_ops. cbn zeta.
-  rewrite !map_app, !concat_app, !map_map. cbn [fst snd].
+  f_equal. f_equal. unfold txn, jump_muts, mut_ops, kid_muts. cbn zeta.
   fold (jump_resets s i tg). fold (jump_backward s i tg).
-  unfold c_mutate.
-  rewrite (concat_map_single (fun j => OMut j reset_for_retry)), (concat_map_single (fun j => OMut j to_skipped)).
+  rewrite !concat_app, concat_reset_with_kids. fold (jump_reset_list s i tg).
+  rewrite !map_app, !map_map. cbn [fst snd].
+  unfold c_mutate at 1. rewrite (concat_map_single (fun j => OMut j to_skipped)).
   rewrite <- !app_assoc. f_equal. f_equal.
   - unfold jump_skipped, skip_candidates, not_started_at. destruct (jump_backward s i tg); [reflexivity|].
     rewrite (filter_and (fun j => negb (mem_nat j (tg :: all_dependents s tg)))). reflexivity.
-  - destruct (i =? tg); [reflexivity|]. destruct (jump_backward s i tg); reflexivity.
+  - f_equal.
+    + destruct (i =? tg); [reflexivity|]. destruct (jump_backward s i tg); [|reflexivity].
+      cbn [concat map fst snd c_mutate app]. f_equal. rewrite map_map. cbn [fst snd].
+      unfold c_mutate. rewrite (concat_map_single (fun c => OMut c reset_for_retry)). reflexivity.
+    + cbn [concat map fst snd c_mutate app]. f_equal. rewrite concat_app, map_map. cbn [fst snd concat app].
+      unfold c_mutate. rewrite (concat_map_single (fun c => OMut c reset_for_retry)). rewrite app_nil_r. reflexivity.
 Qed.
 
 Lemma mem_filter f k l : mem_nat k (filter f l) = mem_nat k l && f k.
@@ -485,38 +514,38 @@ Proof.
   split; [intros ->; tauto|]. split; [tauto|assumption].
 Qed.
 
+Lemma children_nodup s j : NoDup (children s j).
+Proof. unfold children. apply NoDup_filter. apply seq_NoDup. Qed.
+
+Lemma apply_muts_cons j f ms k st : apply_muts ((j, f) :: ms) k st = apply_muts ms k (if j =? k then f st else st).
+Proof. reflexivity. Qed.
+
 Lemma jump_muts_effect s src i tg jctx k st :
   apply_muts (jump_muts s src i tg jctx) k st = jump_effect s src i tg jctx k st.
 Proof.
-  unfold jump_muts, jump_effect. cbn zeta. rewrite !apply_muts_app.
-  rewrite (apply_muts_same reset_for_retry) by apply resets_nodup.
+  unfold jump_muts, jump_effect, kid_muts. cbn zeta. rewrite !apply_muts_app.
+  rewrite (apply_muts_iter reset_for_retry). fold (iter_reset (count_nat k (jump_reset_list s i tg)) st).
+  set (x1 := iter_reset _ st).
   rewrite (apply_muts_same to_skipped) by apply skipped_nodup.
-  rewrite mem_resets.
-  assert (mem_nat k (jump_skipped s i tg) = true -> mem_nat k (closed_downstream s tg) = true -> False) as Hdisj.
-  { intros H1 H2. apply skipped_facts in H1. destruct H1 as [_ [_ [_ [H1 _]]]]. apply H1.
-    apply closed_in_deps. apply mem_nat_In. exact H2. }
-  destruct (k =? tg) eqn:Et.
-  - apply Nat.eqb_eq in Et. subst k. rewrite !andb_false_r.
-    assert (mem_nat tg (jump_skipped s i tg) = false) as Hs.
-    { destruct (mem_nat tg (jump_skipped s i tg)) eqn:E; [|reflexivity]. apply skipped_facts in E. tauto. }
-    rewrite Hs. destruct (i =? tg) eqn:Ei.
-    + unfold apply_muts. simpl. rewrite Nat.eqb_refl. reflexivity.
-    + unfold apply_muts. simpl. rewrite Ei, Nat.eqb_refl. reflexivity.
-  - destruct (k =? i) eqn:Ei.
-    + apply Nat.eqb_eq in Ei. subst k. rewrite andb_false_r.
-      assert (mem_nat i (jump_skipped s i tg) = false) as Hs.
-      { destruct (mem_nat i (jump_skipped s i tg)) eqn:E; [|reflexivity]. apply skipped_facts in E.
-        destruct E as [_ [E _]]. exfalso. exact (seed_not_closed s i E). }
-      rewrite Hs, Et. unfold apply_muts. simpl. rewrite Nat.eqb_refl. rewrite Nat.eqb_sym, Et. reflexivity.
-    + cbn [negb andb]. rewrite andb_true_r.
-      assert (forall x, apply_muts ((if i =? tg then [] else [(i, jump_src_fn (jump_backward s i tg) (s_jump_count src + 1))]) ) k x = x) as Hc.
-      { intros x. destruct (i =? tg); [reflexivity|]. unfold apply_muts. simpl. rewrite Nat.eqb_sym, Ei. reflexivity. }
-      assert (forall x, apply_muts [(tg, jump_tgt_fn (s_jump_count src + 1) jctx)] k x = x) as Hd.
-      { intros x. unfold apply_muts. simpl. rewrite Nat.eqb_sym, Et. reflexivity. }
-      rewrite Hd, Hc.
-      destruct (mem_nat k (closed_downstream s tg)) eqn:E1.
-      * destruct (mem_nat k (jump_skipped s i tg)) eqn:E2; [exfalso; apply Hdisj; reflexivity|reflexivity].
-      * reflexivity.
+  set (x2 := if mem_nat k (jump_skipped s i tg) then to_skipped x1 else x1).
+  assert (forall j x, apply_muts (map (fun c => (c, reset_for_retry)) (children s j)) k x =
+                      if mem_nat k (children s j) then reset_for_retry x else x) as Hk.
+  { intros j x. apply (apply_muts_same reset_for_retry). apply children_nodup. }
+  assert (apply_muts (if i =? tg then []
+                      else if jump_backward s i tg
+                           then (i, jump_src_fn true (s_jump_count src + 1)) :: map (fun c => (c, reset_for_retry)) (children s i)
+                           else [(i, jump_src_fn false (s_jump_count src + 1))]) k x2 =
+          (if i =? tg then x2
+           else let y := if k =? i then jump_src_fn (jump_backward s i tg) (s_jump_count src + 1) x2 else x2 in
+                if jump_backward s i tg && mem_nat k (children s i) then reset_for_retry y else y)) as H3.
+  { destruct (i =? tg); [reflexivity|]. cbn zeta. destruct (jump_backward s i tg).
+    - rewrite apply_muts_cons, Hk. rewrite (Nat.eqb_sym i k). reflexivity.
+    - rewrite apply_muts_cons. rewrite (Nat.eqb_sym i k). reflexivity. }
+  match goal with |- apply_muts ?a k ?inner = _ => replace inner with
+          (if i =? tg then x2
+           else let y := if k =? i then jump_src_fn (jump_backward s i tg) (s_jump_count src + 1) x2 else x2 in
+                if jump_backward s i tg && mem_nat k (children s i) then reset_for_retry y else y) by (symmetry; exact H3) end.
+  cbn zeta. rewrite apply_muts_cons, Hk. rewrite (Nat.eqb_sym tg k). reflexivity.
 Qed.
 
 (* ---- C15_rearm_exact: the accepted jump is ONE commit and does exactly jump_effect to every stage ---- *)
@@ -616,13 +645,22 @@ Proof. intros Hs. unfold handle_jump. rewrite Hs. reflexivity. Qed.
 Lemma not_exhausted_lt c m : jump_exhausted c m = false <-> (c < m)%Z.
 Proof. unfold jump_exhausted. apply Z.leb_gt. Qed.
 
-(* after an accepted jump the carried count is old + 1 on source AND target *)
+Lemma iter_reset_fields n st :
+  s_jump_count (iter_reset n st) = s_jump_count st /\ s_max_jumps (iter_reset n st) = s_max_jumps st.
+Proof. unfold iter_reset. induction n as [|n [IH1 IH2]]; simpl; [split; reflexivity|]. split; assumption. Qed.
+
+Ltac split_ifs := repeat match goal with |- context [if ?c then _ else _] => destruct c end.
+
+(* after an accepted jump the carried count is old + 1 on source AND target (the child resets keep the count) *)
 Lemma jump_counts_after s src i tg jctx st :
   s_jump_count (jump_effect s src i tg jctx i st) = (s_jump_count src + 1)%Z /\
   s_jump_count (jump_effect s src i tg jctx tg st) = (s_jump_count src + 1)%Z.
 Proof.
-  unfold jump_effect. cbn zeta. rewrite !Nat.eqb_refl. split; [|reflexivity].
-  destruct (i =? tg); [reflexivity|]. apply src_fn_facts.
+  unfold jump_effect. cbn zeta. rewrite !Nat.eqb_refl. split.
+  - destruct (i =? tg).
+    + split_ifs; reflexivity.
+    + unfold jump_src_fn. split_ifs; reflexivity.
+  - split_ifs; reflexivity.
 Qed.
 
 (* ---- the budget as a counter machine ---- *)
@@ -1014,9 +1052,10 @@ Qed.
 
 Lemma jump_effect_keeps_max s src i tg jctx k st : s_max_jumps (jump_effect s src i tg jctx k st) = s_max_jumps st.
 Proof.
-  unfold jump_effect. cbn zeta. destruct (k =? tg); [reflexivity|]. destruct (k =? i).
-  - unfold jump_src_fn. destruct (jump_backward s i tg); reflexivity.
-  - destruct (mem_nat k (closed_downstream s tg)); [reflexivity|]. destruct (mem_nat k (jump_skipped s i tg)); reflexivity.
+  unfold jump_effect, jump_src_fn. cbn zeta.
+  destruct (iter_reset_fields (count_nat k (jump_reset_list s i tg)) st) as [_ H]. revert H.
+  generalize (iter_reset (count_nat k (jump_reset_list s i tg)) st). intros x H.
+  split_ifs; simpl; exact H.
 Qed.
 
 Lemma jump_effect_other_count s src i tg jctx k st : k <> tg -> k <> i -> s_jump_count (jump_effect s src i tg jctx k st) = s_jump_count st.
@@ -1024,7 +1063,9 @@ Proof.
   intros H1 H2. unfold jump_effect. cbn zeta.
   destruct (k =? tg) eqn:E1; [apply Nat.eqb_eq in E1; congruence|].
   destruct (k =? i) eqn:E2; [apply Nat.eqb_eq in E2; congruence|].
-  destruct (mem_nat k (closed_downstream s tg)); [reflexivity|]. destruct (mem_nat k (jump_skipped s i tg)); reflexivity.
+  destruct (iter_reset_fields (count_nat k (jump_reset_list s i tg)) st) as [H _]. revert H.
+  generalize (iter_reset (count_nat k (jump_reset_list s i tg)) st). intros x H.
+  split_ifs; simpl; exact H.
 Qed.
 
 (* what the commits of a JumpToStage handler (source j, target tg) do to the budget of stage i, when the message is not a
@@ -1238,7 +1279,7 @@ Proof.
   unfold cnt, emax. rewrite !Hg, Hs, Ht. cbn [option_map].
   destruct (jump_counts_after s1 src i tg c src) as [H1 _]. destruct (jump_counts_after s1 src i tg c tgt) as [_ H2].
   rewrite H1, H2. split; [reflexivity|]. split; [reflexivity|]. split; [apply not_exhausted_lt; exact Hx|].
-  unfold jump_effect. cbn zeta. rewrite Nat.eqb_refl. split; reflexivity.
+  unfold jump_effect. cbn zeta. rewrite Nat.eqb_refl. split; split_ifs; reflexivity.
 Qed.
 
 (* the request after the budget is spent: ONE commit, the source stage TERMINAL, nothing else touched, count unchanged *)
@@ -1303,8 +1344,8 @@ Fixpoint fifo_acts (orc : oracle) (fuel : nat) (s : state) : list action :=
            end
   end.
 
-Lemma jump_effect_classes s src i tg jctx k st :
-  let st' := jump_effect s src i tg jctx k st in
+Lemma jump_effect_top_classes s src i tg jctx k st :
+  let st' := jump_effect_top s src i tg jctx k st in
   (k = tg -> s_status st' = NOT_STARTED /\ all_tasks NOT_STARTED st' /\ s_bypass st' = true /\
              s_ctx st' = kv_update (s_ctx st) jctx) /\
   (k = i -> k <> tg -> s_status st' = (if jump_backward s i tg then NOT_STARTED else SUCCEEDED) /\
@@ -1315,7 +1356,7 @@ Lemma jump_effect_classes s src i tg jctx k st :
      st' = to_skipped st /\ s_status st' = SKIPPED /\ all_tasks SKIPPED st') /\
   (k <> tg -> k <> i -> ~ In k (closed_downstream s tg) -> mem_nat k (jump_skipped s i tg) = false -> st' = st).
 Proof.
-  cbn zeta. unfold jump_effect. cbn zeta.
+  cbn zeta. unfold jump_effect_top. cbn zeta.
   destruct (k =? tg) eqn:Et; [apply Nat.eqb_eq in Et|apply Nat.eqb_neq in Et].
   { subst k. split.
     - intros _. destruct (tgt_fn_facts (s_jump_count src + 1) jctx st) as [A1 [A2 [A3 [_ [A5 _]]]]]. auto.
@@ -1333,4 +1374,221 @@ Proof.
   apply mem_nat_false in Ec. split; [intros; contradiction|].
   destruct (mem_nat k (jump_skipped s i tg)); split; intros; try discriminate; try reflexivity.
   destruct (skipped_fn_facts st) as [A1 [A2 _]]. auto.
+Qed.
+
+(* ---- counting how often the first segment resets a stage ---- *)
+Lemma count_nat_app k a b : count_nat k (a ++ b) = count_nat k a + count_nat k b.
+Proof. unfold count_nat. rewrite filter_app, app_length. reflexivity. Qed.
+
+Lemma count_nat_notin k l : ~ In k l -> count_nat k l = 0.
+Proof.
+  unfold count_nat. induction l as [|a l IH]; simpl; intros H; [reflexivity|].
+  destruct (k =? a) eqn:E; [apply Nat.eqb_eq in E; subst; exfalso; apply H; left; reflexivity|]. apply IH. intros H1. apply H. right. exact H1.
+Qed.
+
+Lemma count_nat_nodup k l : NoDup l -> count_nat k l = if mem_nat k l then 1 else 0.
+Proof.
+  unfold count_nat, mem_nat. induction 1 as [|a l Ha Hn IH]; simpl; [reflexivity|].
+  destruct (k =? a) eqn:E; simpl.
+  - apply Nat.eqb_eq in E. subst a. f_equal. apply (count_nat_notin k l Ha).
+  - exact IH.
+Qed.
+
+Lemma count_nat_in k l : In k l -> exists n, count_nat k l = S n.
+Proof.
+  unfold count_nat. induction l as [|a l IH]; simpl; intros H; [contradiction|].
+  destruct (k =? a) eqn:E; simpl; [eexists; reflexivity|]. destruct H as [H|H]; [subst; rewrite Nat.eqb_refl in E; discriminate|auto].
+Qed.
+
+Lemma children_spec s p k :
+  In k (children s p) <-> exists c, get_stage s k = Some c /\ parent_is p c = true.
+Proof.
+  unfold children. rewrite filter_In. split.
+  - intros [_ H]. destruct (get_stage s k) as [c|]; [exists c; auto|discriminate].
+  - intros [c [Hc Hp]]. split; [|rewrite Hc; exact Hp]. apply in_seq. split; [lia|]. simpl.
+    apply nth_error_Some. unfold get_stage in Hc. rewrite Hc. discriminate.
+Qed.
+
+Lemma one_parent s p q k : In k (children s p) -> In k (children s q) -> p = q.
+Proof.
+  rewrite !children_spec. intros [c [Hc Hp]] [c' [Hc' Hq]]. rewrite Hc in Hc'. inversion Hc'; subst c'.
+  unfold parent_is in *. destruct (y_parent (s_syn c)); [|discriminate]. apply Nat.eqb_eq in Hp, Hq. congruence.
+Qed.
+
+Lemma count_reset_list_nokid s k js :
+  (forall j, In j js -> ~ In k (children s j)) -> count_nat k (flat_map (reset_with_kids s) js) = count_nat k js.
+Proof.
+  induction js as [|j js IH]; intros H; [reflexivity|]. cbn [flat_map].
+  change (j :: js) with ([j] ++ js). rewrite !count_nat_app, IH by (intros j' Hj'; apply H; right; exact Hj').
+  unfold reset_with_kids. change (j :: children s j) with ([j] ++ children s j).
+  rewrite count_nat_app, (count_nat_notin k (children s j)) by (apply H; left; reflexivity). lia.
+Qed.
+
+Lemma count_reset_list_kid s k p js :
+  In k (children s p) -> count_nat k (flat_map (reset_with_kids s) js) = count_nat k js + count_nat p js.
+Proof.
+  intros Hk. induction js as [|j js IH]; [reflexivity|]. cbn [flat_map].
+  change (j :: js) with ([j] ++ js). rewrite !count_nat_app, IH.
+  unfold reset_with_kids. change (j :: children s j) with ([j] ++ children s j). rewrite count_nat_app.
+  assert (count_nat k (children s j) = count_nat p [j]) as E.
+  { unfold count_nat at 2. simpl. destruct (p =? j) eqn:Ep.
+    - apply Nat.eqb_eq in Ep. subst j. rewrite (count_nat_nodup k _ (children_nodup s p)).
+      replace (mem_nat k (children s p)) with true by (symmetry; apply mem_nat_In; exact Hk). reflexivity.
+    - apply count_nat_notin. intros H. apply Nat.eqb_neq in Ep. apply Ep. apply (one_parent s p j k Hk H). }
+  rewrite E. lia.
+Qed.
+
+Lemma mem_flat_map_false (f : nat -> list nat) k l : mem_nat k (flat_map f l) = false -> forall j, In j l -> ~ In k (f j).
+Proof.
+  intros H j Hj Hin. apply mem_nat_false in H. apply H. apply in_flat_map. exists j. auto.
+Qed.
+
+Lemma rearm_parents_spec s i tg p :
+  In p (rearm_parents s i tg) <->
+  In p (jump_resets s i tg) \/ (p = i /\ i <> tg /\ jump_backward s i tg = true) \/ p = tg.
+Proof.
+  unfold rearm_parents. rewrite !in_app_iff. simpl. split.
+  - intros [H|[H|[H|[]]]]; [left; exact H| |right; right; congruence].
+    destruct (i =? tg) eqn:E; simpl in H; [contradiction|]. destruct (jump_backward s i tg) eqn:B; simpl in H; [|contradiction].
+    destruct H as [H|[]]. right. left. apply Nat.eqb_neq in E. auto.
+  - intros [H|[[H1 [H2 H3]]|H]]; [left; exact H| |right; right; left; congruence].
+    right. left. apply Nat.eqb_neq in H2. rewrite H2, H3. simpl. left. congruence.
+Qed.
+
+(* a stage that is not a synthetic child of a re-armed stage is treated exactly as before: jump_effect_top *)
+Lemma jump_effect_no_kid s src i tg jctx k st :
+  mem_nat k (rearm_kids s i tg) = false -> jump_effect s src i tg jctx k st = jump_effect_top s src i tg jctx k st.
+Proof.
+  intros Hnk. pose proof (mem_flat_map_false (children s) k _ Hnk) as Hno.
+  assert (mem_nat k (children s tg) = false) as Htg.
+  { apply mem_nat_false. apply Hno. apply rearm_parents_spec. right. right. reflexivity. }
+  assert (i =? tg = false -> jump_backward s i tg = true -> mem_nat k (children s i) = false) as Hi.
+  { intros E B. apply mem_nat_false. apply Hno. apply rearm_parents_spec. right. left. apply Nat.eqb_neq in E. auto. }
+  assert (count_nat k (jump_reset_list s i tg) = if mem_nat k (jump_resets s i tg) then 1 else 0) as Hcnt.
+  { unfold jump_reset_list. rewrite count_reset_list_nokid.
+    - apply count_nat_nodup, resets_nodup.
+    - intros j Hj. apply Hno. apply rearm_parents_spec. left. exact Hj. }
+  unfold jump_effect, jump_effect_top. cbn zeta. rewrite Hcnt, Htg, mem_resets.
+  assert (mem_nat k (jump_skipped s i tg) = true -> mem_nat k (closed_downstream s tg) = true -> False) as Hdisj.
+  { intros H1 H2. apply skipped_facts in H1. destruct H1 as [_ [_ [_ [H1 _]]]]. apply H1.
+    apply closed_in_deps. apply mem_nat_In. exact H2. }
+  destruct (k =? tg) eqn:Et.
+  - apply Nat.eqb_eq in Et. subst k. rewrite !andb_false_r. cbn [iter_reset Nat.iter nat_rect].
+    assert (mem_nat tg (jump_skipped s i tg) = false) as Hs.
+    { destruct (mem_nat tg (jump_skipped s i tg)) eqn:E; [|reflexivity]. apply skipped_facts in E. tauto. }
+    rewrite Hs. destruct (i =? tg) eqn:Ei; [reflexivity|]. rewrite (Nat.eqb_sym tg i), Ei.
+    destruct (jump_backward s i tg) eqn:B; [rewrite (Hi eq_refl eq_refl)|]; reflexivity.
+  - destruct (k =? i) eqn:Ei.
+    + apply Nat.eqb_eq in Ei. subst k. rewrite andb_false_r. cbn [iter_reset Nat.iter nat_rect].
+      assert (mem_nat i (jump_skipped s i tg) = false) as Hs.
+      { destruct (mem_nat i (jump_skipped s i tg)) eqn:E; [|reflexivity]. apply skipped_facts in E.
+        destruct E as [_ [E _]]. exfalso. exact (seed_not_closed s i E). }
+      rewrite Hs, Et. destruct (jump_backward s i tg) eqn:B; [rewrite (Hi Et eq_refl)|]; reflexivity.
+    + cbn [negb andb]. rewrite andb_true_r.
+      assert ((if i =? tg then (if mem_nat k (jump_skipped s i tg) then to_skipped (iter_reset (if mem_nat k (closed_downstream s tg) then 1 else 0) st) else iter_reset (if mem_nat k (closed_downstream s tg) then 1 else 0) st)
+               else if jump_backward s i tg && mem_nat k (children s i)
+                    then reset_for_retry (if mem_nat k (jump_skipped s i tg) then to_skipped (iter_reset (if mem_nat k (closed_downstream s tg) then 1 else 0) st) else iter_reset (if mem_nat k (closed_downstream s tg) then 1 else 0) st)
+                    else (if mem_nat k (jump_skipped s i tg) then to_skipped (iter_reset (if mem_nat k (closed_downstream s tg) then 1 else 0) st) else iter_reset (if mem_nat k (closed_downstream s tg) then 1 else 0) st))
+              = (if mem_nat k (jump_skipped s i tg) then to_skipped (iter_reset (if mem_nat k (closed_downstream s tg) then 1 else 0) st) else iter_reset (if mem_nat k (closed_downstream s tg) then 1 else 0) st)) as E3.
+      { destruct (i =? tg) eqn:E; [reflexivity|]. destruct (jump_backward s i tg) eqn:B; [rewrite (Hi eq_refl eq_refl)|]; reflexivity. }
+      rewrite E3.
+      destruct (mem_nat k (closed_downstream s tg)) eqn:E1.
+      * destruct (mem_nat k (jump_skipped s i tg)) eqn:E2; [exfalso; apply Hdisj; reflexivity|reflexivity].
+      * reflexivity.
+Qed.
+
+Lemma jump_effect_classes s src i tg jctx k st :
+  mem_nat k (rearm_kids s i tg) = false ->
+  let st' := jump_effect s src i tg jctx k st in
+  (k = tg -> s_status st' = NOT_STARTED /\ all_tasks NOT_STARTED st' /\ s_bypass st' = true /\
+             s_ctx st' = kv_update (s_ctx st) jctx) /\
+  (k = i -> k <> tg -> s_status st' = (if jump_backward s i tg then NOT_STARTED else SUCCEEDED) /\
+                       (jump_backward s i tg = true -> all_tasks NOT_STARTED st')) /\
+  (k <> tg -> k <> i -> In k (closed_downstream s tg) -> st' = reset_for_retry st /\ s_status st' = NOT_STARTED /\
+                        all_tasks NOT_STARTED st') /\
+  (k <> tg -> k <> i -> ~ In k (closed_downstream s tg) -> mem_nat k (jump_skipped s i tg) = true ->
+     st' = to_skipped st /\ s_status st' = SKIPPED /\ all_tasks SKIPPED st') /\
+  (k <> tg -> k <> i -> ~ In k (closed_downstream s tg) -> mem_nat k (jump_skipped s i tg) = false -> st' = st).
+Proof. intros Hnk. cbn zeta. rewrite (jump_effect_no_kid _ _ _ _ _ _ _ Hnk). apply jump_effect_top_classes. Qed.
+
+(* ---- the children of a re-armed stage are re-armed with it ---- *)
+Definition rearmed (st : stage) : Prop := s_status st = NOT_STARTED /\ all_tasks NOT_STARTED st.
+
+Lemma rearmed_reset st : rearmed (reset_for_retry st).
+Proof. destruct (reset_facts st) as [H1 [H2 _]]. split; assumption. Qed.
+Lemma rearmed_tgt nj jctx st : rearmed (jump_tgt_fn nj jctx st).
+Proof. destruct (tgt_fn_facts nj jctx st) as [H1 [H2 _]]. split; assumption. Qed.
+Lemma rearmed_src nj st : rearmed (jump_src_fn true nj st).
+Proof. destruct (src_fn_facts true nj st) as [_ [H1 [H2 _]]]. split; [exact H1|apply H2; reflexivity]. Qed.
+
+Theorem rearmed_children s src i tg jctx k p st :
+  In k (children s p) -> In p (rearm_parents s i tg) ->
+  (p = tg \/ (p = i /\ i <> tg) \/
+   (mem_nat k (jump_skipped s i tg) = false /\ (k <> i \/ jump_backward s i tg = true))) ->
+  rearmed (jump_effect s src i tg jctx k st).
+Proof.
+  intros Hk Hp Hside. unfold jump_effect. cbn zeta.
+  set (x1 := iter_reset _ st).
+  set (x2 := if mem_nat k (jump_skipped s i tg) then to_skipped x1 else x1).
+  set (x3 := if i =? tg then x2 else _).
+  set (x4 := if k =? tg then _ else x3).
+  (* the tail of the pipeline keeps "rearmed" *)
+  assert (rearmed x3 -> rearmed (if mem_nat k (children s tg) then reset_for_retry x4 else x4)) as Tail.
+  { intros H. destruct (mem_nat k (children s tg)); [apply rearmed_reset|]. unfold x4. destruct (k =? tg); [apply rearmed_tgt|exact H]. }
+  apply rearm_parents_spec in Hp. destruct Hp as [Hp|[[-> [Hne Hb]]| ->]].
+  - (* parent among the re-armed downstream stages *)
+    assert (rearmed x1) as R1.
+    { unfold x1. destruct (count_nat_in k (jump_reset_list s i tg)) as [n En].
+      - unfold jump_reset_list. apply in_flat_map. exists p. split; [exact Hp|right; exact Hk].
+      - rewrite En. unfold iter_reset. simpl. apply rearmed_reset. }
+    destruct Hside as [->|[[-> _]|[Hsk Hki]]].
+    + destruct (mem_nat k (children s tg)) eqn:E; [apply rearmed_reset|]. apply mem_nat_false in E. contradiction.
+    + exfalso. unfold jump_resets in Hp. apply filter_In in Hp. destruct Hp as [_ Hp]. rewrite Nat.eqb_refl in Hp. discriminate.
+    + apply Tail. unfold x3. destruct (i =? tg); [unfold x2; rewrite Hsk; exact R1|]. cbn zeta.
+      assert (rearmed (if k =? i then jump_src_fn (jump_backward s i tg) (s_jump_count src + 1) x2 else x2)) as Ry.
+      { destruct (k =? i) eqn:E.
+        - apply Nat.eqb_eq in E. destruct Hki as [Hki|Hki]; [congruence|]. rewrite Hki. apply rearmed_src.
+        - unfold x2. rewrite Hsk. exact R1. }
+      destruct (jump_backward s i tg && mem_nat k (children s i)); [apply rearmed_reset|exact Ry].
+  - (* parent = source of a backward jump *)
+    apply Tail. unfold x3. apply Nat.eqb_neq in Hne. rewrite Hne. cbn zeta. rewrite Hb.
+    replace (mem_nat k (children s i)) with true by (symmetry; apply mem_nat_In; exact Hk). apply rearmed_reset.
+  - (* parent = target *)
+    replace (mem_nat k (children s tg)) with true by (symmetry; apply mem_nat_In; exact Hk). apply rearmed_reset.
+Qed.
+
+(* an ordinary child (not itself source, target, re-armed downstream stage or skipped stage) is reset exactly once *)
+Theorem child_reset_once s src i tg jctx k p st :
+  In k (children s p) -> In p (rearm_parents s i tg) ->
+  k <> i -> k <> tg -> ~ In k (closed_downstream s tg) -> mem_nat k (jump_skipped s i tg) = false ->
+  jump_effect s src i tg jctx k st = reset_for_retry st.
+Proof.
+  intros Hk Hp Hi Ht Hc Hsk.
+  assert (mem_nat k (jump_resets s i tg) = false) as Hr.
+  { rewrite mem_resets. replace (mem_nat k (closed_downstream s tg)) with false by (symmetry; apply mem_nat_false; exact Hc). reflexivity. }
+  assert (count_nat k (jump_reset_list s i tg) = count_nat p (jump_resets s i tg)) as Hcnt.
+  { unfold jump_reset_list. rewrite (count_reset_list_kid s k p _ Hk), (count_nat_nodup k _ (resets_nodup s i tg)), Hr. reflexivity. }
+  unfold jump_effect. cbn zeta. rewrite Hcnt, Hsk.
+  apply Nat.eqb_neq in Hi, Ht. rewrite Hi, Ht.
+  rewrite (count_nat_nodup p _ (resets_nodup s i tg)).
+  apply rearm_parents_spec in Hp. destruct Hp as [Hp|[[-> [Hne Hb]]| ->]].
+  - replace (mem_nat p (jump_resets s i tg)) with true by (symmetry; apply mem_nat_In; exact Hp).
+    assert (p <> i /\ p <> tg) as [Hpi Hpt].
+    { unfold jump_resets in Hp. apply filter_In in Hp. destruct Hp as [_ Hp]. apply andb_true_iff in Hp. destruct Hp as [H1 H2].
+      apply negb_true_iff, Nat.eqb_neq in H1, H2. auto. }
+    assert (mem_nat k (children s i) = false) as E1 by (apply mem_nat_false; intros H; apply Hpi; apply (one_parent s p i k Hk H)).
+    assert (mem_nat k (children s tg) = false) as E2 by (apply mem_nat_false; intros H; apply Hpt; apply (one_parent s p tg k Hk H)).
+    rewrite E1, E2, andb_false_r. destruct (i =? tg); reflexivity.
+  - assert (mem_nat i (jump_resets s i tg) = false) as E0.
+    { rewrite mem_resets, Nat.eqb_refl. simpl. rewrite andb_false_r. reflexivity. }
+    assert (mem_nat k (children s tg) = false) as E2 by (apply mem_nat_false; intros H; apply Hne; apply (one_parent s i tg k Hk H)).
+    rewrite E0, E2, Hb. apply Nat.eqb_neq in Hne. rewrite Hne.
+    replace (mem_nat k (children s i)) with true by (symmetry; apply mem_nat_In; exact Hk). reflexivity.
+  - assert (mem_nat tg (jump_resets s i tg) = false) as E0.
+    { rewrite mem_resets, Nat.eqb_refl. simpl. rewrite !andb_false_r. reflexivity. }
+    rewrite E0. replace (mem_nat k (children s tg)) with true by (symmetry; apply mem_nat_In; exact Hk).
+    destruct (i =? tg) eqn:E; [reflexivity|].
+    assert (mem_nat k (children s i) = false) as E1.
+    { apply mem_nat_false. intros H. apply Nat.eqb_neq in E. apply E. symmetry. apply (one_parent s tg i k Hk H). }
+    rewrite E1, andb_false_r. reflexivity.
 Qed.
